@@ -280,7 +280,7 @@ func ruleNilableTimer(c *Ctx, r *R) {
 				r.excepted(c.nameOf(fn)+"|timer-deref#"+itoa(n), call.Pos(), "Stop on a ticker that is already stopped dereferences the nil timer; a second Stop is outside C20's statement (which covers New/Reset/ticks/one Stop), so this site is listed, not claimed")
 				return
 			}
-			r.ok(safe, c.nameOf(fn)+"|timer-deref#"+itoa(n), call.Pos(), "t.timer."+cal.Name()+"() without a t.timer != nil test: Stop sets the field to nil, so this call panics (with the mutex held) for a ticker that was stopped - e.g. Reset after Stop")
+			r.ok(safe, c.nameOf(fn)+"|timer-deref#"+itoa(n), call.Pos(), "t.timer."+fname(cal)+"() without a t.timer != nil test: Stop sets the field to nil, so this call panics (with the mutex held) for a ticker that was stopped - e.g. Reset after Stop")
 		})
 	}
 	if n == 0 {
@@ -384,7 +384,7 @@ func ruleHeapCapacityOps(c *Ctx, r *R) {
 			switch x := resolveVal(st.Val).(type) {
 			case *ssa.Call:
 				if cal := staticCallee(&x.Call); cal != nil && len(x.Call.Args) >= 1 && isBacking(x.Call.Args[0]) {
-					switch cal.Name() {
+					switch fname(cal) {
 					case "Grow", "Shrink", "Clip":
 						good = true
 					}
@@ -422,7 +422,7 @@ func ruleRootTestTarget(c *Ctx, r *R) {
 				return
 			}
 			cal := staticCallee(&call.Call)
-			if cal == nil || (cal.Name() != "merge" && cal.Name() != "steal") || len(call.Call.Args) < 2 || cal.Signature.Recv() == nil || !isNamedType(cal.Signature.Recv().Type(), treeRel, "btree") {
+			if cal == nil || (fname(cal) != "merge" && fname(cal) != "steal") || len(call.Call.Args) < 2 || cal.Signature.Recv() == nil || !isNamedType(cal.Signature.Recv().Type(), treeRel, "btree") {
 				return
 			}
 			arg := call.Call.Args[1]
@@ -459,7 +459,7 @@ func ruleRootTestTarget(c *Ctx, r *R) {
 						same = true
 					}
 				}
-				r.ok(same, "tree.btree."+fn.Name()+"|root-test#"+itoa(n), call.Pos(), "the repair "+cal.Name()+"("+path(arg)+") is guarded by a root test on a different node ("+path(x)+"): when that other node is the root the repair of an under-full non-root node is skipped and it stays below the minimum")
+				r.ok(same, "tree.btree."+fn.Name()+"|root-test#"+itoa(n), call.Pos(), "the repair "+fname(cal)+"("+path(arg)+") is guarded by a root test on a different node ("+path(x)+"): when that other node is the root the repair of an under-full non-root node is skipped and it stays below the minimum")
 			}
 		})
 	}
@@ -491,7 +491,7 @@ func ruleFoundBeforeDescend(c *Ctx, r *R) {
 			if !ok {
 				return
 			}
-			if cal := staticCallee(&call.Call); cal == nil || cal.Name() != "searchNode" {
+			if cal := staticCallee(&call.Call); cal == nil || fname(cal) != "searchNode" {
 				return
 			}
 			// only descents: the loaded child becomes the node of the next iteration / is searched next (not removals such
@@ -567,7 +567,7 @@ func ruleStopDrains(c *Ctx, r *R) {
 	}
 	isTimerMethod := func(call *ssa.CallCommon, name string) bool {
 		cal := call.StaticCallee()
-		return cal != nil && cal.Name() == name && cal.Signature.Recv() != nil && isNamedTypeDeep(cal.Signature.Recv().Type(), "time", "Timer")
+		return cal != nil && fname(cal) == name && cal.Signature.Recv() != nil && isNamedTypeDeep(cal.Signature.Recv().Type(), "time", "Timer")
 	}
 	for _, f := range fns {
 		instrs(f, func(b *ssa.BasicBlock, i int, in ssa.Instruction) {
